@@ -170,8 +170,35 @@ def _search_paths_fn(ctx):
     return outer, inner[0]
 
 
-def _atom_role(ctx, test, P, outer_params):
+def _single_defs(fn, params):
+    """local name -> defining expression, for names assigned exactly once in fn (not parameters)"""
+    count, val = {}, {}
+    for n in ast.walk(fn):
+        if isinstance(n, ast.Assign) and len(n.targets) == 1 and isinstance(n.targets[0], ast.Name):
+            count[n.targets[0].id] = count.get(n.targets[0].id, 0) + 1
+            val[n.targets[0].id] = n.value
+        elif isinstance(n, (ast.AugAssign, ast.For)) and isinstance(getattr(n, "target", None), ast.Name):
+            count[n.target.id] = count.get(n.target.id, 0) + 2
+    return {k: v for k, v in val.items() if count[k] == 1 and k not in params}
+
+
+def _inline(expr, defs, depth=0):
+    """replace names that are simple aliases by their definition (bounded depth)"""
+    if depth > 3:
+        return expr
+    class T(ast.NodeTransformer):
+        def visit_Name(self, node):
+            if isinstance(node.ctx, ast.Load) and node.id in defs:
+                return _inline(defs[node.id], defs, depth + 1)
+            return node
+    import copy
+    return T().visit(copy.deepcopy(expr))
+
+
+def _atom_role(ctx, test, P, outer_params, defs=None):
     """semantic role of a guard atom inside search_paths; P = parameter names by position"""
+    if defs:
+        test = _inline(test, defs)
     bb, path, result, stack, executed = P
     if isinstance(test, ast.Compare) and len(test.ops) == 1:
         op, left, right = test.ops[0], test.left, test.comparators[0]
@@ -229,11 +256,12 @@ def _rule_search_paths_exits(ctx, rep):
     bb, path, result, stack, executed = P
     where = lambda n: f"{ctx.path(DU)}:{n.lineno}"
     sites = G.walk(sp)
+    defs = _single_defs(sp, set(P))
 
     def roles(site):
         out = {}
         for t, pol in site.guards:
-            r, positive = _atom_role(ctx, t, P, OP)
+            r, positive = _atom_role(ctx, t, P, OP, defs)
             out[r] = pol if positive else not pol
         return out
 
